@@ -44,14 +44,31 @@ func (r *Merlin) refreshLocked() {
 	}
 }
 
+// refresh reloads the table when it has expired. It takes the write lock for
+// that, so it must be called without r.mu held.
+func (r *Merlin) refresh() {
+	r.once.Do(r.init)
+	if !r.supported {
+		return
+	}
+	r.mu.RLock()
+	expired := !time.Now().Before(r.expires)
+	r.mu.RUnlock()
+	if expired {
+		r.mu.Lock()
+		r.refreshLocked()
+		r.mu.Unlock()
+	}
+}
+
 func (r *Merlin) Name() string {
 	return "merlin"
 }
 
 func (r *Merlin) Visit(f func(name string, macs []string)) {
+	r.refresh()
 	r.mu.RLock()
 	defer r.mu.RUnlock()
-	r.refreshLocked()
 	m := map[string][]string{}
 	for mac, names := range r.macs {
 		for _, name := range names {
@@ -64,9 +81,9 @@ func (r *Merlin) Visit(f func(name string, macs []string)) {
 }
 
 func (r *Merlin) LookupMAC(mac string) []string {
+	r.refresh()
 	r.mu.RLock()
 	defer r.mu.RUnlock()
-	r.refreshLocked()
 	return r.macs[mac]
 }
 
